@@ -8,7 +8,7 @@ def rnd(extra, shards, runs=40, steps=300, **kw):
     return d
 
 
-ALLC = "fixed,var,tiny"
+ALLC = "fixed,var,tiny,dirty"
 SERDE = "bincode,postcard"
 
 # the adversarial single-node environment, in the flavours the monitors need
